@@ -163,6 +163,22 @@ class Ctx:
         self.checker_cmds.append("coqc -Q coq OV " + os.path.relpath(vfile, VERIF) if vfile.startswith(VERIF) else "coqc <cases>")
         return rc == 0, out, time.time() - t
 
+    def coqc_gen(self, vfile, timeout=600):
+        """coqc for a regenerated definitions file under coq/Gen that several checks share: serialised by a file lock, and
+        skipped when the compiled file is newer than the source and than every compiled static file (same text, same
+        dependencies: nothing to re-check -- the theorems ABOUT it are recompiled by their own check every run)."""
+        vo = vfile[:-2] + ".vo"
+        with open(os.path.join(COQ, ".gen.lock"), "w") as lf:
+            fcntl.flock(lf, fcntl.LOCK_EX)
+            try:
+                newest = max(os.path.getmtime(os.path.join(d, f)) for sub in ("Model", "Proofs") for d in [os.path.join(COQ, sub)]
+                             for f in os.listdir(d) if f.endswith(".vo"))
+                if os.path.getmtime(vo) > os.path.getmtime(vfile) and os.path.getmtime(vo) > newest:
+                    return True, "", 0.0
+            except (OSError, ValueError):
+                pass
+            return self.coqc(vfile, timeout)
+
     def ensure_static(self):
         """Build (or re-check freshness of) the static part of the development."""
         ok, out = build_static()
